@@ -102,10 +102,11 @@ theorem choices_elements_of_b (O : Oracle) (k se : Nat) (parts : List (List α))
   · cases h
   · next sn hred =>
     have hinv : ChoiceInv k parts.flatten (some sn) := by
-      refine reductionIx_inv (ChoiceInv k) _ _ ?_ ?_ se parts (some sn) hred
+      refine reductionIx_inv (ChoiceInv k) _ _ ?_ ?_ se parts (some sn) (by simpa [choicesRed] using hred)
       · intro i p sn' hsn'
         exact choicesMapPartitions_spec k (O.geom i) p sn' hsn'
       · intro d i qs rs hall sn' hsn'
+        simp only [choicesAgg] at hsn'
         split at hsn'
         · cases hsn'
         · next ins hm =>
@@ -128,10 +129,11 @@ theorem choices_no_valueError (O : Oracle) (k se : Nat) (parts : List (List α))
   · cases h
   · next sn hred =>
     have hinv : ChoiceInv k parts.flatten (some sn) := by
-      refine reductionIx_inv (ChoiceInv k) _ _ ?_ ?_ se parts (some sn) hred
+      refine reductionIx_inv (ChoiceInv k) _ _ ?_ ?_ se parts (some sn) (by simpa [choicesRed] using hred)
       · intro i p sn' hsn'
         exact choicesMapPartitions_spec k (O.geom i) p sn' hsn'
       · intro d i qs rs hall sn' hsn'
+        simp only [choicesAgg] at hsn'
         split at hsn'
         · cases hsn'
         · next ins hm =>
@@ -141,6 +143,90 @@ theorem choices_no_valueError (O : Oracle) (k se : Nat) (parts : List (List α))
     obtain ⟨h1, _, _⟩ := hinv sn rfl
     simp only [finalize, h1, Nat.lt_irrefl, if_false] at h
     cases h
+
+/-- what a returning task of `choices` on a NON-EMPTY set of elements looks like -/
+def ChoiceOk (k : Nat) (q : List α) (o : Option (List α × Nat)) : Prop :=
+  q ≠ [] ∧ ∃ sn, o = some sn ∧ sn.1.length = k ∧ (∀ x ∈ sn.1, x ∈ q) ∧ sn.2 = q.length
+
+theorem All2_choiceOk {k : Nat} {qs : List (List α)} {rs : List (Option (List α × Nat))}
+    (h : All2 (ChoiceOk k) qs rs) :
+    ∃ ins, rs.mapM id = some ins ∧ All2 (ChoiceInv k) qs rs ∧ (rs ≠ [] → qs.flatten ≠ []) := by
+  induction h with
+  | nil => exact ⟨[], rfl, .nil, fun h => absurd rfl h⟩
+  | @cons q o qs rs hqo _ ih =>
+    obtain ⟨ins, hm, hall, _⟩ := ih
+    obtain ⟨hq, sn, rfl, h1, h2, h3⟩ := hqo
+    refine ⟨sn :: ins, by simp [List.mapM_cons, hm], .cons ?_ hall, ?_⟩
+    · intro sn' hsn'; cases hsn'; exact ⟨h1, h2, h3⟩
+    · intro _ hflat
+      simp only [List.flatten_cons, List.append_eq_nil_iff] at hflat
+      exact hq hflat.1
+
+/-- **`choices` is total on non-empty bags**: for every oracle, partitioning (empty partitions included)
+    and `split_every ≥ 2`, if the bag has at least one element then `choices(b, k)` returns `k` elements
+    of `b` — no IndexError / StopIteration / ValueError (`k` may exceed `|b|`). -/
+theorem choices_total (O : Oracle) (k se : Nat) (hse : 2 ≤ se) (parts : List (List α)) (hne : parts.flatten ≠ []) :
+    ∃ xs, choices O k se parts = .ok xs ∧ xs.length = k ∧ ∀ x ∈ xs, x ∈ parts.flatten := by
+  have hsome : (choicesRed O k se parts).isSome := reductionIx_isSome _ _ se hse parts
+  obtain ⟨r, hr⟩ := Option.isSome_iff_exists.mp hsome
+  have hgen := reductionIx_inv_gen (ChoiceOk k) _ _ parts ?_ ?_ se r hr
+  · rcases hgen with ⟨_, _, hnil⟩ | ⟨_, sn, rfl, h1, h2, _⟩
+    · exact absurd hnil hne
+    · refine ⟨sn.1, ?_, h1, h2⟩
+      simp only [choices, hr, finalize, h1, Nat.lt_irrefl, if_false]
+  · -- leaves that are not skipped are non-empty (the only partition of a non-empty bag is non-empty)
+    intro i p hmem hor
+    have hp : p ≠ [] := by
+      rcases hor with h1 | h
+      · intro hp
+        subst hp
+        match parts, h1, hmem with
+        | [q], _, hm =>
+          have : q = [] := by simpa using hm
+          subst this
+          simp at hne
+      · exact h
+    obtain ⟨sn, hsn⟩ := Option.isSome_iff_exists.mp (choicesMapPartitions_isSome k (O.geom i) p (Or.inl hp))
+    obtain ⟨a1, a2, a3⟩ := choicesMapPartitions_spec k (O.geom i) p sn hsn
+    exact ⟨hp, sn, hsn, a1, a2, a3⟩
+  · intro d i qs rs hrs hall
+    obtain ⟨ins, hm, hinv, hflat⟩ := All2_choiceOk hall
+    have hq : qs.flatten ≠ [] := hflat hrs
+    obtain ⟨a1, a2, a3⟩ := All2_choice_flatten hinv hm
+    refine ⟨hq, ?_⟩
+    simp only [choicesAgg, hm]
+    -- `choicesReduce` returns: either k = 0, or the concatenated partial samples are non-empty
+    have hsome : (choicesReduce k (O.pick d i) ins).isSome := by
+      simp only [choicesReduce]
+      split
+      · rfl
+      · next hk =>
+        have hne' : (ins.map (·.1)).flatten ≠ [] := by
+          -- rs ≠ [] so ins ≠ []; its first partial sample has length k > 0
+          cases ins with
+          | nil =>
+            cases rs with
+            | nil => exact absurd rfl hrs
+            | cons o rs' =>
+              cases o with
+              | none => simp [List.mapM_cons] at hm
+              | some v =>
+                simp only [List.mapM_cons, id_eq, Option.bind_eq_bind, Option.bind_some] at hm
+                cases hrest : rs'.mapM id <;> simp [hrest] at hm
+          | cons sn ins' =>
+            have := a3 sn.1 (by simp)
+            intro hnil
+            simp only [List.map_cons, List.flatten_cons, List.append_eq_nil_iff] at hnil
+            rw [hnil.1] at this
+            simp at this; omega
+        have : (ins.map (·.1)).flatten.isEmpty = false := by
+          cases hfl : (ins.map (·.1)).flatten with
+          | nil => exact absurd hfl hne'
+          | cons _ _ => rfl
+        simp [this]
+    obtain ⟨sn, hsn⟩ := Option.isSome_iff_exists.mp hsome
+    obtain ⟨b1, b2, b3⟩ := choicesReduce_spec k (O.pick d i) ins sn a3 hsn
+    exact ⟨sn, hsn, b1, fun x hx => a1 x (b2 x hx), by rw [b3, a2]⟩
 
 example : choices (α := Nat) ⟨fun _ _ => 1, fun _ _ => 0, fun _ _ p => p, fun _ _ j => j, fun _ _ => true⟩ 3 2
     [[1, 2], [], [4]] = .ok [2, 2, 2] := by decide
